@@ -12,7 +12,7 @@ from common import Ctx, driver_json
 import core_lib as cl
 
 PROPERTY = "C02"
-LEAN_MODULES = ["Proofs.C02", "Proofs.C02.Rerun"]
+LEAN_MODULES = ["Proofs.C02", "Proofs.C02.Rerun", "Proofs.C02.DrivingMarket", "Proofs.C02.Rerun2", "Proofs.C02.Markets", "Proofs.C02.RerunObject"]
 DRIVERS = ["driver_core"]
 RULE = ("pairs of random histories sharing a prefix of k bars (k random, suffixes of different length and content) x market mix {probe market with "
         "data-dependent value, two probe markets minutely+hourly, real UniLpMarket, Uni+Aave, Uni+Deribit (hourly order books; the histories part on "
@@ -23,18 +23,26 @@ RULE = ("pairs of random histories sharing a prefix of k bars (k random, suffixe
         "listed sorted / far expiry first / shuffled, single quotes missing from single hourly snapshots x adaptive scripted strategies whose "
         "decisions depend on the snapshot (incl. read-only estimate_cost queries on the bar's order book, off-hour deribit deposits / withdrawals "
         "with data-dependent amounts) and which own stateful triggers of every class (two installed at construction, three by initialize()); "
-        "seed-independent crafted pairs: off-hour balance changes around a mid-hour parting point, a held option whose quote is missing from the "
+        "two probe markets whose frames cover different stretches (the second starts inside the common prefix; in the second history it does or does "
+        "not end up with more rows than the first: the bar index is the index of the market with the most rows — finding E-5); "
+        "seed-independent crafted pairs: the reviewer's [0,60,120]+[60,120] vs [0,60,120]+[60..240] frames, off-hour balance changes around a mid-hour parting point, a held option whose quote is missing from the "
         "last common snapshot and back afterwards, cost queries on books listed best-first. "
         "Per pair: history 1, then the SAME strategy object on the SAME frames with a fresh Actuator/Broker/markets (same process), then history 2. "
         "Compared on the common prefix: account rows, every field of every market's balance entry per bar, actions, snapshots; within each run: "
         "the history entry of a bar as the strategy reads it right after the bar against the entry the finished run holds (append-only history). "
+        "Rerun order (E-7): strategies whose trigger objects are built once — 0..2 in strategy.triggers when run() is called, 1..3 appended in place by "
+        "initialize() on every run; period / periods / at-time / range — run twice with fresh Actuators: oracle (second run = first, list handed back = "
+        "list found) and correspondence with the model's runG2 / rerun2 through driver request run_g2 (bucket says whether the older reading, reset "
+        "before initialize(), would answer differently). "
         "Every supplied frame is hashed when built, after set_price / data hand-over and after the run (column labels + their dtype, column dtypes, "
         "index class / dtype / names / freq / tz / labels in row order, attrs, every cell with its Python type, nested lists); the process-wide "
         "Decimal context is compared before/after each run; bucket = (market mix, interval, price cells/form, late-feed class, row order, holes, "
         "prefix class, what the strategy did, triggers fired, outcome)")
 TRUSTED = ["in-place mutation of the supplied pandas frames and rerun equality are decided by measurement only (sha1 of a canonical dump incl. nested "
            "order-book lists, at construction vs after hand-over vs after the run; second run of the same strategy object on the same frames) — a pure "
-           "model cannot exhibit aliasing; the trigger part of the rerun clause is also a theorem (Proofs/C02/Rerun.lean)",
+           "model cannot exhibit aliasing of pandas frames; the trigger part of the rerun clause is also a theorem (Proofs/C02/Rerun.lean; "
+           "Proofs/C02/Rerun2.lean for the code's order — initialize(), then reset — with the saved trigger list modelled as copy or alias "
+           "behind the generated flag coreRunSavesTriggerListByCopy)",
            "that the implementation's lookups are the model's views is tied by the two-suffix runs and by comparing the views with the real helpers "
            "(_add_statistic_column price column, SqueethMarket.get_twap_price window, DeribitOptionMarket.set_market_status hourly row)"]
 ASSUMPTIONS = ["the strategy reads the data only through the snapshots it is handed (a strategy may read self.data ahead of time; that is outside the property)",
@@ -106,7 +114,37 @@ def gen_pair(rng, kind=None, small=False):
         case["book_holes"] = rng.random() < 0.5
     if kind.startswith("uni") and rng.random() < 0.35:
         case["tick_float"] = True     # tick columns as float64 without NaN: what a reindex + forward fill of the raw minute rows leaves
+    if kind == "probe2" and not case.get("holes"):
+        stagger(case)
     return case
+
+
+def stagger(case):
+    """E-5: two markets whose frames cover different stretches.  The first market's frame ends `m0` minutes into the history (inside or at the
+    end of the first history), the second market's frame starts at minute `from` (inside the common prefix) and runs to the end of the history.
+    In the first history the first market has at least as many rows as the second and defines the bar index; in the second history either
+    the same holds ("same driving market": the clause must hold) or the second market has more rows — a fact that lies entirely after the
+    common prefix — and the run is over ITS index.  Drawn from the case's own seed (the main stream is not touched)."""
+    import random
+    r = random.Random(case["seed"] ^ 0x5e5)
+    if r.random() < 0.3:
+        return
+    k, unit = case["k"], case["interval"]
+    n1 = k + len(case["s1"])
+    o = r.randint(1, max(1, k - 1))
+    if o >= n1:
+        return                            # the second market would have no row at all in the first history
+    m0 = r.randint(max(k, n1 - o), n1)
+    room = m0 - k + o                    # the second history may be this long after the prefix without the second market outgrowing the first
+    if r.random() < 0.5:
+        extra = r.randint(1, 2 * unit + 1)
+        last = (case["s2"] or case["pre"])[-1]["close"]
+        need = room + extra - len(case["s2"])
+        if need > 0:
+            case["s2"] = case["s2"] + gen_bars(r, need, last)
+    else:
+        case["s2"] = case["s2"][:room]
+    case["outgrow"] = {"from": o, "m0": m0}
 
 
 # ------------------------------------------------------------------------------------------ inputs, hashed as supplied
@@ -233,7 +271,15 @@ def make_inputs(case, bars):
     fr = inp["frames"]
     if kind.startswith("probe"):
         fr["m0"] = pd.DataFrame({"x": times, "v": [b["v"] for b in bars]}, index=index)
-        if kind == "probe2":
+        og = case.get("outgrow")
+        if kind == "probe2" and og:
+            # E-5: the first market's frame ends `m0` minutes into the history, the second market's starts at minute `from` and runs to the
+            # end of the history: whichever frame has more rows defines the run's bar index (Actuator.get_test_range)
+            sel = list(range(og["from"], n))
+            fr["m0"] = fr["m0"].iloc[:og["m0"]]
+            if sel:
+                fr["m1"] = pd.DataFrame({"x": [times[i] for i in sel], "v": [bars[i]["v"] for i in sel]}, index=index[sel])
+        elif kind == "probe2":
             hrs = [i for i, t in enumerate(times) if t % 3600 == 0]
             if hrs:
                 fr["m1"] = pd.DataFrame({"x": [times[i] for i in hrs], "v": [bars[i]["v"] for i in hrs]}, index=index[hrs])
@@ -741,6 +787,9 @@ def run_once(case, inp, strategy=None):
     internal_before = {k: digest(v) for k, v in internal.items()}
     ctx_before = dec_context()
     err = None
+    # the market whose frame has the most distinct timestamps as supplied (the first of them in broker order), counted here on the frames
+    sizes = [(mi.name, len(set(m.data.index.get_level_values(0)))) for mi, m in a.broker.markets.items()]
+    driving = next(nm for nm, sz in sizes if sz == max(z for _, z in sizes)) if sizes else None
     try:
         a.run(print_result=False)
     except Exception as e:  # noqa: BLE001
@@ -756,7 +805,7 @@ def run_once(case, inp, strategy=None):
         entries = [[str(v) for v in s_.to_array()] for s_ in a.account_status]      # every field of every market's balance object, per bar
     return {"entries": entries, "then": obs["then"], "rows": rows, "actions": actions, "snaps": obs["snaps"], "assembled": assembled, "after": after, "err": err, "did": sorted(obs["did"]),
             "internal": (internal_before, internal_after), "dctx": (ctx_before, ctx_after), "bars": [r[0] for r in rows], "strategy": a.strategy,
-            "n_triggers": len(a.strategy.triggers)}
+            "n_triggers": len(a.strategy.triggers), "driving": driving, "sizes": sizes}
 
 
 def prefix_of(res, n_bars):
@@ -811,8 +860,22 @@ def check_pair(ctx: Ctx, case):
     if kind == "uni+deribit" and iv == 1:
         n_common = case["k"]
     a1, a2 = prefix_of(r1, n_common), prefix_of(r2, n_common)
+    # the bars themselves: the timestamps of the first n_common bars are a function of the common prefix.  If they differ, everything else of the
+    # prefix differs as a consequence; reported once, under the cause (which market has the most rows is decided on the frames as supplied)
+    same_bars = r1["bars"][:n_common] == r2["bars"][:n_common]
+    if not same_bars:
+        d = first_diff(r1["bars"][:n_common], r2["bars"][:n_common])
+        if r1["driving"] != r2["driving"]:
+            ctx.violate("lookahead:bar-index:driving-market-changes-in-suffix",
+                        f"two {kind} histories sharing {case['k']} minutes of data (every frame identical on the shared bars): the market with the most rows "
+                        f"is {r1['driving']} in the first ({r1['sizes']}) and {r2['driving']} in the second ({r2['sizes']}) — decided by rows AFTER the common "
+                        f"prefix — so bar {d} of the run is {r1['bars'][d:d + 1]} vs {r2['bars'][d:d + 1]} and the account rows of the prefix differ "
+                        f"({str(a1[0][d:d + 1])[:120]} vs {str(a2[0][d:d + 1])[:120]})", rep)
+        else:
+            ctx.violate(f"lookahead:{kind}:i{iv}:bar-index", f"bar {d} of the run is {r1['bars'][d:d + 1]} vs {r2['bars'][d:d + 1]} for two histories sharing "
+                        f"{case['k']} minutes of data and the same driving market {r1['driving']}", rep)
     for name, x, y in (("account", a1[0], a2[0]), ("actions", a1[1], a2[1]), ("snapshots", a1[2], a2[2])):
-        if x != y:
+        if x != y and same_bars:
             d = first_diff(x, y)
             ctx.violate(f"lookahead:{kind}:i{iv}:{name}",
                         f"{name} of bar-prefix {n_common} differ between two histories sharing {case['k']} minutes of data (first difference at item {d}: "
@@ -828,7 +891,7 @@ def check_pair(ctx: Ctx, case):
                             f"bar wrote into an earlier bar's entry", rep)
                 break
     e1, e2 = r1["entries"][:n_common], r2["entries"][:n_common]
-    if e1 != e2:
+    if e1 != e2 and same_bars:
         d = first_diff(e1, e2)
         ctx.violate(f"lookahead:{kind}:i{iv}:account-entries", f"the per-market balance entries of bar-prefix {n_common} differ between two histories sharing "
                     f"{case['k']} minutes of data (bar {d}: {str(e1[d:d + 1])[:160]} vs {str(e2[d:d + 1])[:160]})", rep)
@@ -871,6 +934,8 @@ def check_pair(ctx: Ctx, case):
             if r1["n_triggers"] != r1b["n_triggers"]:
                 ctx.violate(f"rerun-differs:{kind}:trigger-list", f"strategy.triggers holds {r1['n_triggers']} objects after the first run, {r1b['n_triggers']} after the second", rep)
     pc = "all" if not case["s1"] else "short" if n_common <= 2 else "long"
+    if case.get("outgrow"):
+        pc += ":staggered-" + ("same-driver" if r1["driving"] == r2["driving"] else "driver-changes" + ("" if not same_bars else "-same-bars"))
     did = set(r1["did"]) | set(r2["did"])
     trig = "+".join(sorted(x for x in did if x.startswith("trig-")))
     ctx.case(f"{tagbase}:{pc}:{'+'.join(sorted(x for x in did if not x.startswith('trig-'))) or 'idle'}:{'trig' if trig else 'notrig'}:ok",
@@ -961,6 +1026,111 @@ def compare_views(ctx, rep, obs, ans):
             ctx.disagree(f"Deribit hourly row: impl {obs['hour'][:6]} model {got[:6]}", rep)
 
 
+# ------------------------------------------------------------------------------------------ E-7: initialize(), THEN the reset; the list handed back
+def gen_rerun_case(rng):
+    """a strategy object that builds all its trigger objects once: `given` are in strategy.triggers when run() is called, `late` are appended by
+    initialize() on every run (in place).  Two runs with fresh Actuators over the same one-market minute frame."""
+    n, start = rng.randint(3, 14), 3600 * rng.randint(0, 5)
+
+    def spec(i):
+        k = rng.choice(("period", "period", "periods", "atTime", "range"))
+        sp = {"k": k, "kw": "{}", "id": i}
+        if k == "period":
+            sp.update(d=60 * rng.randint(1, 4), imm=rng.random() < 0.5, pend=0)
+        elif k == "periods":
+            sp.update(ds=[60 * rng.randint(1, 4) for _ in range(rng.randint(1, 2))], imm=rng.random() < 0.5, pend=0)
+        elif k == "atTime":
+            sp.update(s=start + 60 * rng.randint(0, n))
+        else:
+            a = start + 60 * rng.randint(0, n)
+            sp.update(s=a, e=a + 60 * rng.randint(0, 4))
+        return sp
+    ng = rng.randint(0, 2)
+    return {"rerun_order": True, "n": n, "start": start, "given": [spec(i) for i in range(ng)], "late": [spec(ng + j) for j in range(rng.randint(1, 3))]}
+
+
+def run_rerun_impl(case):
+    cl.setup()
+    import c18
+    from demeter import Strategy
+    times = [case["start"] + 60 * i for i in range(case["n"])]
+    fires = []
+
+    def mk_do(i):
+        return lambda snapshot, **kw: fires.append([cl.sec(snapshot.timestamp), i])
+    given = [c18.construct(sp, mk_do(sp["id"])) for sp in case["given"]]
+    late = [c18.construct(sp, mk_do(sp["id"])) for sp in case["late"]]
+    ident = {id(t): sp["id"] for t, sp in zip(given + late, case["given"] + case["late"])}
+
+    class S(Strategy):
+        def initialize(self):
+            self.triggers.extend(late)          # the same objects on every run, in whatever state the previous run left them
+
+    st = S()
+    st.triggers.extend(given)
+    out = []
+    for _ in range(2):
+        a, _ms, _rec = cl.build([("m0", times, False)], times)
+        a.strategy = st
+        del fires[:]
+        err = None
+        try:
+            a.run(print_result=False)
+        except Exception as e:  # noqa: BLE001
+            err = type(e).__name__
+        out.append({"fires": [list(f) for f in fires], "err": err, "after": [ident.get(id(t), -1) for t in st.triggers]})
+    return times, out
+
+
+def check_rerun_order(ctx: Ctx, case, reqs):
+    times, out = run_rerun_impl(case)
+    rep = dict(case)
+    for o in out:
+        if o["err"] is not None:
+            ctx.violate(f"run:rerun-order:{o['err']}", f"a run with well-formed triggers {case['given']} + {case['late']} raised {o['err']}", rep)
+            return
+    # oracle (no model): the second run of the same strategy object reproduces the first; the list handed back is the list found
+    if out[0]["fires"] != out[1]["fires"]:
+        d = first_diff(out[0]["fires"], out[1]["fires"])
+        ctx.violate("rerun-differs:rerun-order:triggers", f"same strategy object (triggers built once: {case['given']} installed before run(), {case['late']} "
+                    f"appended by initialize()), fresh Actuator, same {case['n']} one-minute bars: trigger call {d} is {out[0]['fires'][d:d + 1]} in the first "
+                    f"run and {out[1]['fires'][d:d + 1]} in the second", rep)
+    want = [sp["id"] for sp in case["given"]]
+    for which, o in zip(("first", "second"), out):
+        if o["after"] != want:
+            ctx.violate("rerun-differs:rerun-order:trigger-list", f"strategy.triggers holds the objects {o['after']} after the {which} run, {want} before it "
+                        f"(initialize() appends {[sp['id'] for sp in case['late']]})", rep)
+            break
+
+    def js(sp):
+        return {k: ([str(x) for x in v] if isinstance(v, list) else str(v) if isinstance(v, int) and not isinstance(v, bool) else v) for k, v in sp.items()}
+    req = {"fn": "run_g2", "markets": [{"idx": [str(t) for t in times], "open": False}], "prices": [str(t) for t in times], "delta": "60",
+           "resample": False, "specs": [js(sp) for sp in case["given"]], "script": {"init": [["tadd", js(sp)] for sp in case["late"]]}}
+    reqs.append((rep, {"rerun_order": out, "want": want}, req))
+
+
+def compare_rerun_order(ctx, rep, obs, ans):
+    if "error" in ans:
+        ctx.disagree(f"driver error {ans['error']}", rep)
+        return
+    out = obs["rerun_order"]
+
+    def fires(r):
+        return [[int(e[1]), int(e[2])] for e in r["trace"] if e[0] == "fire"]
+    for which, o, r in (("first", out[0], ans), ("second", out[1], ans["second"])):
+        if fires(r) != o["fires"] or (r["err"] is not None):
+            d = first_diff(fires(r), o["fires"])
+            ctx.disagree(f"rerun order: trigger calls of the {which} run: impl {o['fires'][d:d + 2]} model runG2 {fires(r)[d:d + 2]} (call {d})", rep)
+            return
+    if [int(x) for x in ans["handed_back"]] != out[1]["after"]:
+        ctx.disagree(f"rerun order: strategy.triggers after the run: impl {out[1]['after']} model {ans['handed_back']}", rep)
+    tells = fires(ans["second_reset_before_init"]) != fires(ans["second"])
+    kinds = "+".join(sorted({sp["k"] for sp in rep["late"]}))
+    ctx.case(f"rerun-order:given{len(rep['given'])}:late-{kinds}:{'reset-before-init-would-differ' if tells else 'orders-agree'}")
+    if tells:
+        ctx.count("rerun_order_cases_that_distinguish_reset_before_and_after_initialize")
+
+
 def crafted_pairs():
     """pairs every run starts with (independent of the seed): situations the random stream reaches rarely"""
     import random
@@ -1000,6 +1170,12 @@ def crafted_pairs():
                 "seed": 15, "price_kind": "native", "form": "tuple", "row_order": "far-first",
                 "plan": {"0": [["estimate", "ETH-X-1700-C", 2], ["buy", "ETH-X-1700-C", 2]], "60": [["estimate", "ETH-X-1700-C", 2], ["estimate", "ETH-X-1900-C", 1]]},
                 "crafted": "estimate-cost"})
+    # (d) E-5, the reviewer's input: markets [0,60,120] and [60,120] versus [0,60,120] and [60,…,240]; and the same frames where the second market
+    #     does not outgrow the first ([60,…,180]: three rows each, the first market still defines the index)
+    for n2, name in ((2, "driver-changes"), (1, "same-driver")):
+        pre = gen_bars(rng, 3, 201000)
+        out.append({"kind": "probe2", "interval": 1, "start": 0, "k": 3, "pre": pre, "s1": [], "s2": gen_bars(rng, n2, pre[-1]["close"]), "seed": 16,
+                    "price_kind": "decimal", "form": "frame", "aux": False, "outgrow": {"from": 1, "m0": 3}, "crafted": "staggered-" + name})
     return out
 
 
@@ -1016,17 +1192,31 @@ def run(ctx: Ctx):
     reqs = []
     for _ in range(ctx.scale(20, 300)):
         check_views(ctx, ctx.rng, reqs)
-    ctx.impl_traces = n * 3
+    n_rr = ctx.scale(40, 400)
+    for _ in range(n_rr):
+        check_rerun_order(ctx, gen_rerun_case(ctx.rng), reqs)
+    ctx.impl_traces = n * 3 + n_rr * 2
     if ctx.driver_ok and reqs:
         out = driver_json([r[2] for r in reqs], exe="driver_core")
         for (rep, obs, _), ans in zip(reqs, out):
-            compare_views(ctx, rep, obs, ans)
+            if "rerun_order" in obs:
+                compare_rerun_order(ctx, rep, obs, ans)
+            else:
+                compare_views(ctx, rep, obs, ans)
 
 
 def replay(ctx: Ctx, case) -> bool:
     sub = Ctx(ctx.prop, ctx.tier, ctx.seed, False)
     if case.get("views"):
         return True
+    if case.get("rerun_order"):
+        reqs = []
+        check_rerun_order(sub, case, reqs)
+        if ctx.driver_ok and reqs:
+            compare_rerun_order(sub, reqs[0][0], reqs[0][1], driver_json([reqs[0][2]], exe="driver_core")[0])
+        for v in sub.violations:
+            print("  ", v["key"], v["what"])
+        return not sub.violations and not getattr(sub, "disagreements", [])
     check_pair(sub, case)
     for v in sub.violations:
         print("  ", v["key"], v["what"])
